@@ -450,6 +450,43 @@ for fname, cls, tag in ((VQ, 'EuclideanCodebook', 'euclid'), (VQ, 'CosineSimCode
     ITEMS.append((f'inv_{tag}', (lambda fname=fname, cls=cls, tag=tag: G.emit_inventory(f'inv_{tag}', fname, cls))))
 
 
+# initialiser expressions of the NON-persistent buffers (must be rebuilt by __init__ from constructor arguments alone)
+def npinit_item(name, fname, cls, locals_of=()):
+    def thunk():
+        inv = G.class_inventory(fname, cls)
+        rows = []
+        for n, k, p, src in inv:
+            if k == 'Buffer' and not p:
+                rows.append(f'{n}={src}')
+        # the local definitions those initialisers depend on (assignments in __init__)
+        for tgt in locals_of:
+            rows.append(f'local {tgt}=' + ast.unparse(assigned_expr(fname, f'{cls}.__init__', tgt)))
+        return G.emit_strings(name, rows, f'initialisers of non-persistent buffers of {cls}')
+    ITEMS.append((name, thunk))
+
+
+npinit_item('npinit_vq', VQ, 'VectorQuantize')
+npinit_item('npinit_fsq', FSQF, 'FSQ', ['_levels', '_basis', 'implicit_codebook', 'self.codebook_size'])
+npinit_item('npinit_lfq', LFQF, 'LFQ', ['codebook', 'bits', 'all_codes'])
+npinit_item('npinit_rfsq', RFSQ, 'ResidualFSQ', ['levels_tensor'])
+npinit_item('npinit_lq', LQ, 'LatentQuantize', ['_levels', '_basis', 'implicit_codebook', 'self.codebook_size'])
+
+
+for cls, tag in (('EuclideanCodebook', 'euclid'), ('CosineSimCodebook', 'cosine')):
+    guard_item(f'g_{tag}_embed_is_param', VQ, f'{cls}.__init__', stmt_assigns('self.embed'), 'self.embed = nn.Parameter(embed)')
+
+
+@item('p_simvq_codebook')
+def _():
+    rows = ['codebook=' + ast.unparse(return_expr(SIMVQ, 'SimVQ.codebook')),
+            'frozen=' + ast.unparse(assigned_expr(SIMVQ, 'SimVQ.__init__', 'codebook', 0)) + ' ; ' + ast.unparse(assigned_expr(SIMVQ, 'SimVQ.__init__', 'codebook', 1)),
+            'transform=' + ast.unparse(assigned_expr(SIMVQ, 'SimVQ.__init__', 'self.code_transform')),
+            'decode=' + ast.unparse(assigned_expr(SIMVQ, 'SimVQ.indices_to_codes', 'frozen_codes')) + ' ; ' + ast.unparse(assigned_expr(SIMVQ, 'SimVQ.indices_to_codes', 'quantized', 0))]
+    rp = find_func(RPQ, 'RandomProjectionQuantizer.__init__')
+    rows += ['rpq.' + ast.unparse(n).replace('\n', ' ') for n in rp.body if 'rand_projs' in ast.unparse(n) or 'self.vq' in ast.unparse(n)]
+    return G.emit_strings('p_simvq_codebook', rows, 'SimVQ implicit codebook / RPQ construction (pinned shape)')
+
+
 def writes_item(name, fname, quals):
     def thunk():
         rows = []
